@@ -99,10 +99,10 @@ Fixpoint dedup (seen l : list nat) : list nat :=
   end.
 
 Definition nas_ids (v0 : bool) (st : tstate) : list nat :=
-  dedup [] (filter (fun i => memb i (param_ids v0 st)) (flat_map layer_ids (layers st))).
+  let ps := param_ids v0 st in dedup [] (filter (fun i => memb i ps) (flat_map layer_ids (layers st))).
 (* exclude = set(nas); for p in named_parameters(): if p not in exclude: yield *)
 Definition net_ids (v0 : bool) (st : tstate) : list nat :=
-  filter (fun i => negb (memb i (nas_ids v0 st))) (param_ids v0 st).
+  let nas := nas_ids v0 st in filter (fun i => negb (memb i nas)) (param_ids v0 st).
 
 (* ---------------------------------------------------------------- operations *)
 Inductive top :=
@@ -188,3 +188,44 @@ Definition view (v0 : bool) (st : tstate) :=
 
 Definition run_step (v0 : bool) (st : tstate) (o : top) := let r := step v0 st o in (view v0 (fst r), snd r).
 Definition run_view (v0 : bool) (ops : list top) (st : tstate) := view v0 (run v0 ops st).
+
+(* comparison inside Coq: the harness passes what it observed on the real object after the step
+   (requires_grad per tensor, switches, per-layer discrete_cost, samplers, grad pattern) and gets one bit back;
+   the two groups are compared with those of the initial state (they never change) *)
+Fixpoint bools_eqb (a b : list bool) : bool :=
+  match a, b with
+  | [], [] => true
+  | x :: a', y :: b' => Bool.eqb x y && bools_eqb a' b'
+  | _, _ => false
+  end.
+Fixpoint nats_eqb (a b : list nat) : bool :=
+  match a, b with
+  | [], [] => true
+  | x :: a', y :: b' => Nat.eqb x y && nats_eqb a' b'
+  | _, _ => false
+  end.
+Definition sview_eqb (a b : (Z * Z) * bool * Z) : bool :=
+  let '((n1, d1), h1, k1) := a in let '((n2, d2), h2, k2) := b in
+  Z.eqb n1 n2 && Z.eqb d1 d2 && Bool.eqb h1 h2 && Z.eqb k1 k2.
+Fixpoint sviews_eqb (a b : list ((Z * Z) * bool * Z)) : bool :=
+  match a, b with
+  | [], [] => true
+  | x :: a', y :: b' => sview_eqb x y && sviews_eqb a' b'
+  | _, _ => false
+  end.
+
+Definition check_step (v0 : bool) (st0 : tstate) (path : list top) (o : top)
+    (e_rg e_flags e_disc : list bool) (e_samp : list ((Z * Z) * bool * Z)) (e_obs : list bool) : bool :=
+  let s1 := run v0 path st0 in
+  let r := step v0 s1 o in
+  let s2 := fst r in
+  bools_eqb (map p_rg (tens s2)) e_rg &&
+  nats_eqb (nas_ids v0 s2) (nas_ids v0 st0) && nats_eqb (net_ids v0 s2) (net_ids v0 st0) &&
+  bools_eqb [tr_feat s2; tr_rf s2; tr_dil s2; tr_sel s2; discrete s2] e_flags &&
+  bools_eqb (map l_disc (layers s2)) e_disc &&
+  sviews_eqb (map sampler_view (samplers s2)) e_samp &&
+  bools_eqb (map snd (snd r)) e_obs.
+
+Fixpoint bad_from (k : nat) (l : list bool) : list nat :=
+  match l with [] => [] | b :: r => if b then bad_from (S k) r else k :: bad_from (S k) r end.
+Definition bad_indices (l : list bool) : nat * list nat := (length l, bad_from 0 l).
